@@ -254,6 +254,26 @@ package engine
 //@     invariant fields.arr == 0 || fresh(fields.arr)
 //@     decreases numfield(telem(rtype(v0))) - i
 
+// An import of a pattern (C10, C11): its path as written; named by a metavariable exactly when the name is
+// declared as an identifier metavariable of this change (an expression metavariable cannot name an import).
+//@ func (c *matcherCompiler) compileImport(imp) (m)
+//@   requires typing: compileEnvOK()
+//@   requires imp != nil && imp.Path != nil
+//@   requires typing: unquoteOK(imp.Path.Value)
+//@   requires typing: imp.Name != nil ==> rvSize(rvOf(boxed(imp.Name))) >= 0
+//@   assigns c.dots, elems(c.dots)
+//@   ensures [C10,C11] named-by-a-metavariable-only-if-declared-as-identifier: m.NameIsMetavar == (imp.Name != nil && lookupVar(c.meta, imp.Name.Name) == const("github.com/uber-go/gopatch/internal/engine.IdentMetavarType"))
+//@   ensures [C10] the-name-as-written: (imp.Name == nil ==> m.Name == nil && m.NameS == "") && (imp.Name != nil ==> m.NameS == imp.Name.Name && m.Name != nil)
+//@   ensures [C10] the-path-as-written: m.Path == unquoted(imp.Path.Value)
+//@ func (c *replacerCompiler) compileImport(imp) (m)
+//@   requires typing: compileEnvOK()
+//@   requires imp != nil && imp.Path != nil
+//@   requires typing: unquoteOK(imp.Path.Value)
+//@   assigns c.dots, elems(c.dots)
+//@   ensures [C11] named-by-a-metavariable-only-if-declared-as-identifier: m.NameIsMetavar == (imp.Name != nil && lookupVar(c.meta, imp.Name.Name) == const("github.com/uber-go/gopatch/internal/engine.IdentMetavarType"))
+//@   ensures [C11] the-name-as-written: (imp.Name == nil ==> m.Name == nil && m.NameS == "") && (imp.Name != nil ==> m.NameS == imp.Name.Name && m.Name != nil)
+//@   ensures [C11] the-path-as-written: m.Path == unquoted(imp.Path.Value) && m.Fset == c.fset
+
 // ---- elision (C04) ---------------------------------------------------------------------------------
 
 //@ func sectionRegion(items, r, start, end) (r1)
